@@ -55,6 +55,16 @@ CHECKS = {
              'exhaustive short histories over two indices and random longer ones, always with fuse-after-collapse.',
         design_ref='DESIGN.md §5 C11',
         note='Inserted tuples well formed (strictly increasing indices, values in {0,1,2}) as Monomial guarantees; degree fixed to 3.'),
+    'C10': dict(
+        technique='Lean 4 proof (cell-wise polynomial lemmas + homogenisation index maps) over a hand model of Relation/matrix + differential correspondence',
+        text='Theorems: sum of relations over arbitrary, differently ordered, overlapping variable lists is the pointwise '
+             'semiring sum; composition is the semiring matrix product of the meanings extended by identity (at every '
+             'infinity-free choice over any universe, and at EVERY choice between operand variables); an infinity in an '
+             'operand persists; results are well formed. The real +, *, fixpoint are checked against matrix sum/product/'
+             'closure at all 3^n choices by a Lean predicate and diffed with the model; statement lists are analysed whole '
+             'vs composed from every split. Fixpoint = closure is proved separately (RelFix) when that file is present.',
+        design_ref='DESIGN.md §5 C10',
+        note='Relations well formed (square, distinct non-empty names, well-formed monomials).'),
 }
 
 NOT_YET = {}
